@@ -296,6 +296,20 @@ func cmdCheck(args []string) {
 			broken[fn] = true
 		}
 	}
+	// a loop without invariant that the claimed set does not know: new code under an old contract
+	{
+		claimedSet := map[string]bool{}
+		for _, c := range claimed {
+			claimedSet[c] = true
+		}
+		for _, o := range allObls {
+			if strings.HasSuffix(o.Name, ".unannotated") && len(claimed) > 0 && !claimedSet[o.Name] {
+				fn := oblFunc[o]
+				problems[fn] = append(problems[fn], o.Name+" (new loop without invariant)")
+				broken[fn] = true
+			}
+		}
+	}
 	// once the invariants of a function no longer hold, what the executor derives after its loops is
 	// meaningless: the function's remaining failures say nothing; its fallback decides
 	for fn := range broken {
